@@ -247,6 +247,17 @@ theorem general_extract_specialises (c : Cfg) (rawEsc : Bool) (s : List Char) :
 /-! ### dispatch tables and the extended pairings extracted from the current source -/
 
 open SqlglotModel.Generated.C04 in
+/-- Audited allow-list of the places in sqlglot/expressions/*.py that construct an `Identifier` directly (ast): only
+    `to_identifier` itself (which decides `quoted` from SAFE_IDENTIFIER_RE) and `parse_identifier`'s fast path (taken
+    only after SAFE_IDENTIFIER_RE matched).  Any other construction bypasses the automatic quoting of names that come
+    in through the builder API (`exp.convert`, `column`, `alias_`, …) and breaks this theorem. -/
+theorem generated_identifier_sites :
+    identifierSites = ["builders.py:parse_identifier:Identifier(this=name, quoted=False)",
+      "core.py:to_identifier:Identifier(this=name, quoted=not SAFE_IDENTIFIER_RE.match(name) if quoted is None else quoted)"] := by
+  decide +kernel
+
+
+open SqlglotModel.Generated.C04 in
 /-- For every dialect and every tokenizer core: the generator's string start, national prefix, byte-string start,
     identifier start and `/*` are dispatched by `_scan` to the scanner and pairing the theorems above are about
     (incl. bigquery, where the only trie keys extending the quote are the triple quotes and the quote is
